@@ -24,6 +24,7 @@ RULE = ('full product: chain length 5..60 (quick) / 5..500 (thorough) x configur
         'refused.  Non-trivial = everything except constant data')
 ASSUMPTIONS = ['import after export is compared to rtol 1e-12 (jackknife) / 1e-9 x condition number (bootstrap least squares)']
 EXHAUSTIVE = True
+REPEAT = 2      # every case is evaluated twice in the same process: the second verdict must equal the first (call-history oracle)
 CHUNK = 4
 DATA = ['white', 'ar1', 'alt', 'count', 'const']
 
